@@ -34,6 +34,7 @@ func init() {
 		Families: []fw.Family{
 			{Name: "corpus", N: func(string) int { return len(corpus.All()) }, Gen: c03GenCorpus, Eval: c03Eval},
 			{Name: "multifault", N: constN(2500, 60000), Gen: c03GenMultiFault, Eval: c03Eval},
+			{Name: "after-other-projects", N: constN(600, 15000), Gen: c03GenMultiFault, Eval: c03EvalHistory},
 			{Name: "concurrent", N: constN(150, 3000), Gen: c03GenMultiFault, Eval: c03EvalConcurrent},
 			{Name: "concurrent-accepted", N: constN(400, 8000), Gen: genModelCase, Eval: c03EvalConcurrentModel},
 		},
@@ -324,6 +325,17 @@ var c03Kinds = []faultKind{
 			fmt.Fprintf(sb, "TYPE @ca%d_%d\n{%s\n  \"next%d\": @ca%d_%d // {optional: true}\n}\n", *u, i, rule, i, *u, (i+1)%n)
 		}
 	}},
+	{"repeated-tags-in-one-directive", func(sb *strings.Builder, k int, u *int) {
+		// accepted: the order of an interaction's tags is the order written, also when a name is written twice
+		*u++
+		var names []string
+		for i := 0; i < k+1; i++ {
+			fmt.Fprintf(sb, "TAG @rt%d_%d\n", *u, i)
+			names = append(names, fmt.Sprintf("@rt%d_%d", *u, i))
+		}
+		fmt.Fprintf(sb, "GET /rt%d\n  Tags %s %s\n  200 any\n", *u, strings.Join(names, " "), names[0])
+		fmt.Fprintf(sb, "URL /rtu%d\n  Tags %s %s %s\n  POST\n    Request any\n    200 any\n", *u, names[len(names)-1], strings.Join(names, " "), names[1%len(names)])
+	}},
 	{"override-inherited", func(sb *strings.Builder, k int, u *int) {
 		for i := 0; i < k; i++ {
 			*u++
@@ -479,4 +491,43 @@ func safeIdx(ss []string, i int) string {
 		return ss[i]
 	}
 	return "<missing>"
+}
+
+
+// c03EvalHistory: the result of a project must not depend on what the process has handled before under the same file
+// name: the project is processed under a name that has just been used for other texts (the same text with CR or CRLF
+// line ends, a truncated copy, another project) and under a name nobody has used; both results must be the same.
+func c03EvalHistory(t *fw.T, c *fw.Case) {
+	d := c.Docs[0]
+	text := d.Files[d.Root]
+	used := fmt.Sprintf("used%d_%d.jst", t.Seed%1000, c.Index)
+	fresh := fmt.Sprintf("fresh%d_%d.jst", t.Seed%1000, c.Index)
+	mk := func(name string, b []byte) run.Doc {
+		nd := run.Doc{Files: map[string][]byte{name: b}, Root: name, FixedSeed: true}
+		return nd
+	}
+	polluters := [][]byte{
+		[]byte(strings.ReplaceAll(string(text), "\n", "\r")),
+		[]byte(strings.ReplaceAll(string(text), "\n", "\r\n")),
+		text[:len(text)/2],
+		[]byte("JSIGHT 0.3\rGET /x\r  Tags @nosuch\r  200 any\r"),
+	}
+	for _, pb := range polluters {
+		t.Exec(mk(used, pb))
+	}
+	oa := t.Exec(mk(used, text))
+	ob := t.Exec(mk(fresh, text))
+	t.Count("repetitions")
+	t.Count("history_pairs_compared")
+	norm := func(o *run.Obs, name string) string {
+		return strings.ReplaceAll(fingerprintText(o), name, "<name>")
+	}
+	if a, b := norm(oa, used), norm(ob, fresh); a != b {
+		c.Docs = []run.Doc{mk(used, text)}
+		t.Violation("depends-on-history:"+c03Sig(ob, oa), fmt.Sprintf("the same project gives another result under a file name that was used before for other texts:\n  fresh name: %s\n  used name:  %s\n  input %s", describe(ob), describe(oa), fw.Short(text, 400)))
+	}
+}
+
+func fingerprintText(o *run.Obs) string {
+	return fmt.Sprintf("%s|%s|%d|%d|%s|%s|%s|%s|%s", o.Outcome, o.ErrText, o.Index, o.Line, o.Quote, o.NewErr, o.PanicVal, o.JSON, o.JSONIndent)
 }
